@@ -3,7 +3,6 @@ import WmModel.Ack
 import WmModel.Lin
 open Wm Wm.Ack
 
-deriving instance Hashable for Sent, Ch, St
 deriving instance BEq for Res
 
 def kindOf : String → Option Kind
